@@ -344,3 +344,8 @@ TEXT['C01']['text'] += (' Interpreter loop (interp_tracer_invisible, Props/Inter
                         'go-ethereum v1.12.0 - to which the fork\'s tables are equal outside 0xe0-0xe7 - a run of the loop model from two states that differ '
                         'in the Artela tracer only gives, for every program, input and iteration count, results that differ in the tracer only: over the '
                         'standard instruction set the state-change tracer and call-tree recorder cannot influence execution.')
+TEXT['C04']['text'] += (' S atomic-nonces: the nonce increment of a creation belongs to the frame that issued it (the host, for a top-level creation) and '
+                        'shares that frame\'s fate, not the creation\'s; the expected nonce of every pre-existing account is computed from the callbacks.')
+TEXT['C12']['text'] += (' S halt-no-data: a journal program that halts exceptionally hands no return data back.')
+TEXT['C15']['text'] += (' In the loop model (M9) TLOAD / TSTORE read and write a transient store that is part of the world, with the static-context test '
+                        'before the pops; the interp layer runs stores and loads of equal and different keys on every fork (undefined bytes before Cancun).')
